@@ -50,6 +50,18 @@ CHECKS = {
  "C16": ("deterministic simulation: seeded sequences of honest and dishonest notary clients on 1-3 nodes (fine-mode concurrent duplicates, clock jumps past challenge expiry) + reference notary state machine",
          "Every response is judged by a reference notary: data-carrying transactions may appear in a ledger only after a valid confirm or a receiver-signed reject, at most once; pure transfers only after a validly signed proposal; requests with invalid signatures must fail and change neither ledger nor awaiting lists; listings, history and balances are served only against proof of key ownership and contain only the caller's data.",
          "availability of honest reads (throttle) is reported, not required; expiry windows are read from the code", "5 C16"),
+ "C11": ("deterministic simulation: connected topologies on 2-6 real gossip nodes over SimNet with seeded delay, reordering and duplication; per-item oracle over the network log and the per-node ledger-call log",
+         "Per injected item (vertex whose parents are admitted everywhere, or awaiting transaction): admitted by every node, at most once per node, forwarded only after the node's own acceptance, at most once per link (per suppression window for transactions), never sent to a node already listed with a valid signature, with at most sum-of-degrees messages. Labelled graphs on <=4 nodes are drawn by edge mask and delivery orders are sampled (their signatures are counted), not enumerated exhaustively. Dependent items in flight are a separate class whose non-delivery is a recorded known finding.",
+         "request contexts are not cancelled on handler return (ctx_cancel_on_return off); loss is injected in a share of runs where only the safety half is judged", "5 C11"),
+ "C12": ("deterministic simulation with a byzantine relay fault: forged gossiper lists (7 classes) spliced into the relay's outgoing gossip in the C11 network; C11 per-item oracle restricted to honest nodes + honest-path delivery",
+         "One node per run forwards gossip with forged gossiper entries (garbage, honest address with bad signature, valid signatures lifted from other items, its own signature under honest addresses, the target itself, all of the target's neighbours, duplicates); every honest node with an honest path to the origin must still admit every item exactly once and honest nodes must never skip a peer because of an invalid entry.",
+         "validity of entries is recomputed independently (sha256(address|hash), ed25519 under the address' key)", "5 C12"),
+ "C13": ("deterministic simulation: seeded permutations (with duplicates and invalid vertices) of a valid history delivered to a genesis-only node, real 2 s retry ticker on the simulated clock; differential against parents-first delivery to a second real node",
+         "Children that arrive before their parents must be reported as such and parked; after the retries the node must hold exactly the ledger (vertices, parent links, index, balances) of a second real node fed the same history parents-first; invalid vertices must never be admitted through the retry path; the buffer bound must hold.",
+         "history sizes stay inside the code's bounds (500 parked, 25 retries), which are read through the hook", "5 C13"),
+ "C14": ("deterministic simulation of the real sync client over a SimNet stream with seeded stream faults (duplicate vertex, duplicate transaction, unknown parent, second self-sealed, empty transaction, cut), source ledgers of 0-130 vertices incl. multi-tip, truncated and still-busy sources",
+         "Clean streams: the joiner's vertices, parent links, index, genesis wallet and balances (tip by tip) must equal the peer's, and an identical follow-up gossip sequence (valid children, duplicates, overdrawing tips and their children, children of old tips) must be accepted and rejected alike by both. Corrupted streams: the joiner must stay unloaded and refuse proposals. Sync from a truncated peer is a recorded known finding.",
+         "differentials are judged only when the makers went quiet; a source that moved during the stream is compared only if the joiner caught up", "5 C14"),
 }
 
 NOT_YET = {}
